@@ -5,14 +5,7 @@
 //!   logx replay <replay.json>
 //!   logx drive <job.json>            (internal: child process of the C19 end-to-end engine)
 
-mod c19_e2e;
-mod c19_model;
-mod c19_route;
-mod c20_json;
-mod c20_pattern;
-mod c20_roller;
-mod driver;
-mod gen;
+use logx::{c19_e2e, c19_route, c20_json, c20_pattern, c20_roller, driver, fuzzrun, gen};
 
 use vcore::{Check, Ctx, EvidenceMeta, Failure, Replay};
 
@@ -63,8 +56,41 @@ fn sweep_stale_temp_dirs() {
   }
 }
 
+/// Thorough tier: start a fuzz campaign in the background (libFuzzer is single-threaded; the
+/// proptest engines use the other cores meanwhile).
+fn start_fuzz(ctx: &Ctx, target: &'static str, runs: u64) -> Option<std::thread::JoinHandle<fuzzrun::FuzzOutcome>> {
+  if ctx.tier != vcore::Tier::Thorough || std::env::var("VERIF_NO_FUZZ").is_ok() {
+    return None;
+  }
+  let seed = ctx.seed;
+  let runs = std::env::var("VERIF_FUZZ_RUNS").ok().and_then(|v| v.parse().ok()).unwrap_or(runs);
+  Some(std::thread::spawn(move || fuzzrun::run(target, runs, seed)))
+}
+
+fn absorb_fuzz(check: &mut Check, h: Option<std::thread::JoinHandle<fuzzrun::FuzzOutcome>>) {
+  let Some(h) = h else { return };
+  let Ok(o) = h.join() else { return };
+  eprintln!("[{}] fuzz target {} done at {:.1}s: {} runs, {} finding(s){}", check.ctx.property, o.target, check.ctx.wall(), o.runs, o.replays.len(), o.note.as_ref().map(|n| format!(", note: {n}")).unwrap_or_default());
+  check.stats.evaluations += o.runs;
+  check.stats.class_n(&format!("fuzz/{}/runs", o.target), o.runs);
+  if o.note.is_some() {
+    check.stats.class("fuzz/unavailable_or_stopped");
+  }
+  for (r, p) in o.replays {
+    if r.property != check.ctx.property {
+      continue;
+    }
+    if let Some(k) = check.findings.open_for(&r.property, &r.signature) {
+      *check.stats.excluded.entry(k.id.clone()).or_default() += 1;
+      continue;
+    }
+    check.violations.push((r, p));
+  }
+}
+
 fn check_c20(check: &mut Check) -> (String, Vec<String>, String) {
   let ctx = check.ctx.clone();
+  let fz = start_fuzz(&ctx, "fz_encoders", 600_000);
   let out = vcore::drive(&ctx, &check.findings, 1, ctx.tier.pick(30_000, 1_500_000), c20_json::strategy, c20_json::execute);
   check.absorb("json", out);
   eprintln!("[C20] json engine done at {:.1}s", ctx.wall());
@@ -80,6 +106,7 @@ fn check_c20(check: &mut Check) -> (String, Vec<String>, String) {
   let out = vcore::drive(&ctx, &check.findings, 3, ctx.tier.pick(8_000, 400_000), move || c20_roller::strategy(max_ops), c20_roller::execute);
   check.absorb("roller", out);
   eprintln!("[C20] roller engine done at {:.1}s", ctx.wall());
+  absorb_fuzz(check, fz);
   // generator health: the classes the property quantifies over must actually be reached
   for (class, min) in [
     ("json/needs_escape", 1000),
@@ -116,14 +143,10 @@ fn check_c20(check: &mut Check) -> (String, Vec<String>, String) {
 
 fn check_c19(check: &mut Check) -> (String, Vec<String>, String) {
   let ctx = check.ctx.clone();
-  let max_events = ctx.tier.pick(60usize, 120usize);
-  let out = vcore::drive(&ctx, &check.findings, 1, ctx.tier.pick(10_000, 300_000), move || c19_route::strategy(max_events), c19_route::execute);
-  check.absorb("route", out);
-  eprintln!("[C19] route engine done at {:.1}s", ctx.wall());
-  check.stats.nt_samples.truncate(1);
-  check.stats.samples.truncate(1);
+  // the child-process engine runs first and alone: it is the only timing-sensitive one (the
+  // library's own shutdown deadlines), so nothing else of this check competes with it for CPU
   let per_thread = ctx.tier.pick(40usize, 120usize);
-  let e2e_cases: u64 = std::env::var("VERIF_E2E_CASES").ok().and_then(|v| v.parse().ok()).unwrap_or(ctx.tier.pick(640, 6_000));
+  let e2e_cases: u64 = std::env::var("VERIF_E2E_CASES").ok().and_then(|v| v.parse().ok()).unwrap_or(ctx.tier.pick(480, 12_000));
   let mut out = vcore::drive(&ctx, &check.findings, 2, e2e_cases, move || c19_e2e::strategy(per_thread), c19_e2e::execute_recording);
   // failures vcore could not confirm on its final re-run (race-dependent): report the smallest
   // scenario that was actually seen failing with that signature, marked as flaky
@@ -141,6 +164,15 @@ fn check_c19(check: &mut Check) -> (String, Vec<String>, String) {
   }
   check.absorb("e2e", out);
   eprintln!("[C19] e2e engine done at {:.1}s", ctx.wall());
+  check.stats.nt_samples.truncate(1);
+  check.stats.samples.truncate(1);
+
+  let fz = start_fuzz(&ctx, "fz_logroute", 400_000);
+  let max_events = ctx.tier.pick(60usize, 120usize);
+  let out = vcore::drive(&ctx, &check.findings, 1, ctx.tier.pick(40_000, 3_000_000), move || c19_route::strategy(max_events), c19_route::execute);
+  check.absorb("route", out);
+  eprintln!("[C19] route engine done at {:.1}s", ctx.wall());
+  absorb_fuzz(check, fz);
   for (class, min) in [
     ("route/config_prefix_pair_nonadditive", 500),
     ("route/event_matched_2plus_loggers", 500),
